@@ -105,6 +105,19 @@ def random_specs(draw):
     return spec
 
 
+def bulk_emulsion_spec(n, seed, use_grid):
+    """a large polydisperse emulsion (counts beyond block sizes / pre-selection thresholds), a pure function of the arguments"""
+    rng = np.random.default_rng([n, seed, int(use_grid)])
+    dim = 1 + (n + seed) % 3
+    edge = 4.0 * n ** (1.0 / dim) if dim > 1 else 2.5 * n
+    origin = [gen.r6(float(rng.uniform(-50, 50))) for _ in range(dim)]
+    drops = [{"position": [gen.r6(origin[a] + float(rng.uniform(0, edge))) for a in range(dim)], "radius": gen.r6(float(rng.uniform(0.3, 1.5)))} for _ in range(n)]
+    spec = {"kind": "emulsion", "dim": dim, "cls": ["SphericalDroplet", "DiffuseDroplet"][seed % 2], "droplets": drops, "min_distance": [0.0, 0.3, -0.3][seed % 3], "bulk": n}
+    if use_grid:
+        spec["grid"] = {"origin": origin, "shape": [4] * dim, "spacing": [edge / 4] * dim, "periodic": [bool((seed + a) % 2 == 0) for a in range(dim)]}
+    return spec
+
+
 LATTICE_RADII = [0.5, 1.0]  # dyadic: touching pairs have surface distance exactly 0
 
 
@@ -138,9 +151,16 @@ class C10(Property):
             for md in (-0.5, 0.0, 0.5):
                 for first in range(5):
                     jobs.append({"domain": "lattice-1d", "periodic": per, "min_distance": md, "first_site": first, "maxlen": maxlen})
+        for n in ([33, 129, 257, 300] if tier == "quick" else [33, 129, 257, 300, 520, 1030]):
+            for use_grid in (False, True):
+                for seed in range(2 if n < 600 else 1):
+                    jobs.append({"domain": "bulk-emulsions", "bulk": n, "seed": seed, "grid": use_grid})
         return jobs
 
     def expand(self, job):
+        if "bulk" in job:
+            yield bulk_emulsion_spec(job["bulk"], job["seed"], job["grid"])
+            return
         combos = [(s, r) for s in range(5) for r in LATTICE_RADII]
         for n in range(1, job["maxlen"] + 1):
             for seq in itertools.product(combos, repeat=n):
@@ -185,10 +205,11 @@ class C10(Property):
         D = np.zeros((n, n))
         Deuc = np.zeros((n, n))
         for i in range(n):
-            for j in range(n):
-                if i != j:
-                    D[i, j] = np.linalg.norm(geom.min_image(P[i] - P[j]))
-                    Deuc[i, j] = np.linalg.norm(P[i] - P[j])
+            D[i] = np.linalg.norm(geom.min_image(P[i] - P), axis=1)
+            Deuc[i] = np.linalg.norm(P[i] - P, axis=1)
+            D[i, i] = Deuc[i, i] = 0.0
+        if spec.get("bulk"):
+            ctx.cls("bulk>" + str(max(t for t in (32, 128, 256, 512, 1024) if n > t)))
         Ssurf = D - R[:, None] - R[None, :]
         ctx.cls(f"dim{dim}", "grid" if grid is not None else "nogrid", f"n{min(n, 4)}{'+' if n > 4 else ''}")
         periodic_matters = grid is not None and bool(np.any(np.abs(D - Deuc) > 1e-9 * scale))
@@ -213,8 +234,8 @@ class C10(Property):
                 except ValueError:
                     pass
                 ctx.require(np.array_equal(em.get_pairwise_distances(subtract_radius=sub, grid=grid), keep), "pairwise:result-aliases-internal-state", "after writing into the returned matrix the same query returns something else")
-        for i in range(n):
-            for j in range(n):
+        pairs = [(i, j) for i in range(n) for j in range(n)] if n <= 40 else [tuple(int(x) for x in ij) for ij in np.random.default_rng(n).integers(0, n, (3000, 2))]
+        for i, j in pairs:
                 if i != j and (spec.get("exact") or abs(Ssurf[i, j]) > 1e-9 * scale):
                     ov = objs[i].overlaps(objs[j], grid=grid) if grid is not None else objs[i].overlaps(objs[j])
                     ctx.require(bool(ov) == bool(Ssurf[i, j] < 0), "overlaps:disagrees", f"{objs[i]} overlaps {objs[j]} = {ov}, surface distance {Ssurf[i, j]}")
